@@ -309,7 +309,7 @@ func runC12(c run.Ctx) *core.CaseResult {
 	go func() { wg.Wait(); close(fin) }()
 	select {
 	case <-fin:
-	case <-time.After(10 * time.Second):
+	case <-time.After(map[bool]time.Duration{true: time.Second, false: 10 * time.Second}[res.Verdict == "violated"]):
 		if parked := parkedInFlushTick(); parked > 0 && res.Verdict != "violated" {
 			// released channels but goroutines still parked would be a harness inconsistency; report as seen
 			res.Violate("writer-parked", "c12-writer-parked:"+scen, 0, eventNames(rt, 60), "%d client goroutine(s) are still parked in flushTick after all their notices should have been closed", parked)
